@@ -25,10 +25,24 @@ structure Uni where
   src1Sel : BitVec 32
   dstSel : BitVec 32
   dstUnused : BitVec 8
+  /-- VOP3P op_sel / op_sel_hi and the SDWA / VOP3P per-source modifiers -/
+  opSel : BitVec 64
+  opSelHi : BitVec 64
+  src0Neg : Bool
+  src1Neg : Bool
+  src2Neg : Bool
+  src0Abs : Bool
+  src1Abs : Bool
+  src2Abs : Bool
+  /-- `state.ReadOperand(inst.Src2, 0)` read once before the loop: the literal K of `v_madak_f32`,
+      `v_fmamk_f32`, `v_fmaak_f32` (a `LiteralConstant` operand, never a VGPR) -/
+  k2 : BitVec 64
 deriving Repr, DecidableEq
 
 def Uni.zero : Uni :=
-  { isSdwa := false, clamp := false, abs := 0, neg := 0, omod := 0, src0Sel := 0, src1Sel := 0, dstSel := 0, dstUnused := 0 }
+  { isSdwa := false, clamp := false, abs := 0, neg := 0, omod := 0, src0Sel := 0, src1Sel := 0, dstSel := 0, dstUnused := 0
+    opSel := 0, opSelHi := 0, src0Neg := false, src1Neg := false, src2Neg := false, src0Abs := false, src1Abs := false
+    src2Abs := false, k2 := 0 }
 
 /-- everything one iteration of the Go lane loop reads -/
 structure RawIn where
@@ -103,6 +117,11 @@ structure LaneHandler where
 inductive Cov where
   /-- lane body translated: entry `idx` of `Gen.Lane.laneHandlers` -/
   | translated (idx : Nat)
+  /-- a float handler: the loop skeleton, mask reads and accumulator updates translated literally, the
+      float32/float64 data path as Lean `Float32`/`Float` operations (opaque to the kernel: an uninterpreted
+      function of the lane's own operand values). Lane-uniformity is proved; there is NO `c06 body`
+      correspondence for these (NaN payloads, libm vs Go's math package) -/
+  | translatedF (idx : Nat)
   /-- only calls other handlers with `state` (`runVADDI32` → SDWA / regular variant) -/
   | wrapper (callees : List String)
   /-- some value of type float32/float64 or a `math.*` call: no exact reference; syntactic fit + extensional test -/
@@ -271,6 +290,36 @@ def goLoop (h : LaneHandler) (ops : Ops) (exec vcc0 : BitVec 64) : Nat → GoSt 
 def goRun (h : LaneHandler) (ops : Ops) (exec vcc0 : BitVec 64) (vgpr : Nat → Nat → Nat) : GoSt :=
   goLoop h ops exec vcc0 64
     { vgpr := vgpr, acc := (match h.accInit with | .vcc => vcc0 | _ => 0#64) }
+
+/-! ## Stand-ins for Go's float conversions and `math` functions (float handlers; never unfolded in proofs,
+not executed by the correspondence) -/
+namespace GoF
+
+/-- Go `intN(f)` / `uintN(f)`: truncation toward zero; the result for NaN / out-of-range values is
+    implementation specific in Go (here: saturating through int64) -/
+def toInt (w : Nat) (_signed : Bool) (x : Float) : BitVec w := BitVec.ofInt w x.toInt64.toInt
+
+def trunc (x : Float) : Float := if x < 0 then Float.ceil x else Float.floor x
+
+def roundToEven (x : Float) : Float :=
+  let r := Float.round x
+  if Float.abs (x - trunc x) == 0.5 then 2 * Float.round (x / 2) else r
+
+def min (x y : Float) : Float := if x.isNaN || y.isNaN then x + y else if x < y then x else y
+def max (x y : Float) : Float := if x.isNaN || y.isNaN then x + y else if x < y then y else x
+
+/-- `math.IsInf(f, sign)` -/
+def isInf (x : Float) (sign : BitVec 64) : Bool :=
+  x.isInf && (sign == 0#64 || (BitVec.slt 0#64 sign && decide (0 < x)) || (BitVec.slt sign 0#64 && decide (x < 0)))
+
+def signbit (x : Float) : Bool := (x.toBits >>> 63) != 0
+
+/-- `math.Inf(sign)` -/
+def inf (sign : BitVec 64) : Float := if BitVec.sle 0#64 sign then Float.ofBits 0x7ff0000000000000 else Float.ofBits 0xfff0000000000000
+
+def nan : Float := Float.ofBits 0x7ff8000000000001
+
+end GoF
 
 /-! ## Library functions of `amd/bitops` (another package; hand-transcribed, constant bit positions) -/
 namespace Go
